@@ -44,6 +44,11 @@ def reuse(ctx, r):
 
 
 def run(ctx):
+    _run_main6(ctx)
+    _round6(ctx)
+
+
+def _run_main6(ctx):
     with ctx.rule('R10.1', 'explicit id: rejected for 0, for > channel_max and when occupied, before make_entry', floor=5) as r:
         g = panics.insert_guards(ctx)
         site = ctx.site(CSL + 'insert')
@@ -167,3 +172,10 @@ def run(ctx):
     def scope(p):
         return p.startswith(CSL) or p.startswith('io_loop::Inner::allocate_channel')
     panics.inventory(ctx, 'R10.6', 'no undischarged panic-capable site in the allocator and the hand-over', roots=['io_loop::Inner::allocate_channel'], scope=scope, floor_sites=1)
+
+
+def _round6(ctx):
+    """Rules that are necessary conditions of this property too (found by seeding round 6)."""
+    from rules import arms as A
+    with ctx.rule('R10.10', 'the Channel handed out carries the id of the reply to this very request (shared with C12)', floor=3) as r:
+        A.include(ctx, r, 'c12', 'R12.1', pick=('connection::Connection::open_channel:on', 'connection::Connection::open_channel:reply', 'connection::Connection::open_channel:one-emission'))
